@@ -177,8 +177,29 @@ fn session(fields: Vec<String>) -> Vec<String> {
         let saved = unsafe { dup(1) };
         unsafe { dup2(tmp.as_raw_fd(), 1) };
         let mut errs = vec![];
+        // mode "...+perform": per field three items instead of the transcript - what the field itself wrote, the
+        // Display of its value (empty for none / Void), its error kind (empty for none)
+        let per_form = fields[0].contains("+perform");
+        let mut items = vec![];
+        let mut read_from = 0u64;
         for f in &fields[1..] {
-            match std::panic::catch_unwind(std::panic::AssertUnwindSafe(|| it.eval(f.chars()))) {
+            let r = std::panic::catch_unwind(std::panic::AssertUnwindSafe(|| it.eval(f.chars())));
+            if per_form {
+                std::io::stdout().flush().ok();
+                let mut own = Vec::new();
+                tmp.seek(SeekFrom::Start(read_from)).ok();
+                tmp.read_to_end(&mut own).ok();
+                read_from += own.len() as u64;
+                items.push(format!("o {}", crate::esc(&String::from_utf8_lossy(&own))));
+                match r {
+                    Ok(Ok(Some(Value::Void))) | Ok(Ok(None)) => { items.push("v ".to_string()); items.push("e ".to_string()); }
+                    Ok(Ok(Some(v))) => { items.push(format!("v {}", crate::esc(&format!("{}", v)))); items.push("e ".to_string()); }
+                    Ok(Err(e)) => { items.push("v ".to_string()); items.push(format!("e {}", crate::err_kind(&e))); }
+                    Err(p) => { items.push("v ".to_string()); items.push(format!("e {}", crate::panic_message(p))); }
+                }
+                continue;
+            }
+            match r {
                 Ok(Ok(Some(Value::Void))) | Ok(Ok(None)) => (),
                 Ok(Ok(Some(v))) => println!("{}", v),
                 Ok(Err(e)) => errs.push(format!("E {}", crate::err_kind(&e))),
@@ -193,6 +214,9 @@ fn session(fields: Vec<String>) -> Vec<String> {
         let mut bytes = Vec::new();
         tmp.seek(SeekFrom::Start(0)).ok();
         tmp.read_to_end(&mut bytes).ok();
+        if per_form {
+            return items;
+        }
         let mut out = vec![format!("O {}", crate::esc(&String::from_utf8_lossy(&bytes)))];
         out.extend(errs);
         out
